@@ -70,7 +70,7 @@ def jobs(pid, tier, seed):
         elif i % 25 == 3:
             k = "long"
         out.append({"kind": k, "seed": seed * 1000003 + i})
-    out += [{"kind": "random", "seed": seed * 1000003 + 5000000 + i, "life": 1} for i in range(n // 2)]
+    out += [{"kind": "random", "seed": seed * 1000003 + 5000000 + i, "life": 1} for i in range(n)]
     out += [{"kind": "crashimg", "seed": seed * 1000 + i} for i in range(12 if tier == "quick" else 150)]
     # work the server postpones to a later reactor turn runs one command late; afterwards everybody leaves and the
     # store must still return to empty (histories of the C08 profile: many closes next to adds of the other side)
